@@ -463,6 +463,12 @@ class PathExec:
             raise OutOfSubset('statement %s at line %d' % (type(node).__name__, node.lineno))
         return m(node, st)
 
+    def s_ClassDef(self, node, st):
+        # a class defined inside the function (a local helper type): the name is bound to an opaque value; nothing of its body runs here,
+        # instances and their methods are unknown callees like any other
+        st.env[node.name] = self.fresh('class_' + node.name)
+        return [('next', st, None, None)]
+
     def s_Pass(self, node, st):
         return [('next', st, None, None)]
 
